@@ -430,6 +430,44 @@ impl<'a> Exec<'a> {
                 self.out.executed += 1;
                 self.do_prepare(ix, op, *s, q, *size);
             }
+            Op::SearchBurst { s, q, n } => {
+                if !self.stores.contains_key(s) {
+                    return;
+                }
+                self.out.executed += 1;
+                let (qq, n) = (q.clone(), *n);
+                // all answers of the burst must be the same list (repeating a search gives the same answer)
+                let res = self.run_store(*s, move |st| {
+                    let first = sut::search(st, &qq);
+                    let mut odd: Option<(usize, Hits)> = None;
+                    for k in 1..n {
+                        let h = sut::search(st, &qq);
+                        if odd.is_none() && h != first {
+                            odd = Some((k, h));
+                        }
+                    }
+                    (first, odd)
+                });
+                self.out.faults[F_REPEAT] += 1;
+                match res {
+                    Ok((first, odd)) => {
+                        self.record(ix, op, &fmt_hits(&first));
+                        self.out.searches += n as u64;
+                        if let Some((k, h)) = odd {
+                            if self.on("C10") {
+                                self.out.evals += 1;
+                            }
+                            self.violate("C10", "C10.repeat", ix, "", format!("repetition {} of the same search: {}", k, fmt_hits(&h)), fmt_hits(&first), String::new());
+                        }
+                        let slot = self.stores.get_mut(s).unwrap();
+                        slot.searched_before = true;
+                    }
+                    Err(p) => {
+                        self.record(ix, op, &p.render());
+                        self.on_panic(ix, &p);
+                    }
+                }
+            }
             Op::Migrate { s, t } => {
                 if !self.stores.contains_key(s) || *t >= self.threads.len() {
                     return;
@@ -510,7 +548,7 @@ impl<'a> Exec<'a> {
             Op::RCreate { .. } | Op::RDestroy { .. } | Op::RAdd { .. } | Op::RLimit { .. } | Op::RMarkers { .. } | Op::RSearch { .. } | Op::RRead { .. } => {
                 self.do_registry(ix, op);
             }
-            Op::Dist { .. } | Op::Jacc { .. } | Op::WMatch { .. } => {
+            Op::Dist { .. } | Op::Jacc { .. } | Op::WMatch { .. } | Op::Burst { .. } => {
                 #[cfg(feature = "hooks")]
                 crate::scratch::step(self, ix, op);
             }
